@@ -35,6 +35,7 @@ func InBubble(t *testing.T, f func()) (problem string) {
 		sched.ResetClock()
 		common.StartUnmarshalWorkers()
 		defer common.StopUnmarshalWorkers()
+		defer StopAll() // the command bodies of sidecars still "running" must return before the bubble ends
 		f()
 	})
 	return ""
